@@ -16,7 +16,7 @@
      restrict           no call passes one object both as the destination and as a __restrict parameter
      initialised        no cell is read before it is written
    A function the extractor could not express as a step list is reported, not guessed. *)
-EXTENDS Naturals, Integers, Sequences, FiniteSets, TLC, Json, IOUtils
+EXTENDS Naturals, Integers, Sequences, FiniteSets, TLC, Json, IOUtils, SequencesExt
 
 CONSTANT QT                     \* toy prime, QT = 3 (mod 4) is not required: the identities hold in the quotient rings
 Progs == ndJsonDeserialize(IOEnv.TOWERPROG)
@@ -39,8 +39,10 @@ T6Add(a, b) == T6!EAdd(a, b)   T6Sub(a, b) == T6!ESub(a, b)   T6Mul(a, b) == T6!
 T12 == INSTANCE ExtField WITH D <- 2, C <- <<T2!EZero, T2!EOne, T2!EZero>>, KZero <- T6!EZero, KOne <- T6!EOne, KAdd <- T6Add, KSub <- T6Sub, KMul <- T6Mul, KNeg <- T6Neg
 
 \* ---- object model -------------------------------------------------------------------------------------------
-Members(T) == CASE T = "Fq2" -> <<"c0", "c1">> [] T = "Fq6" -> <<"c0", "c1", "c2">> [] T = "Fq12" -> <<"c0", "c1">> [] OTHER -> <<>>
-MemberType(T) == CASE T = "Fq2" -> "Fq" [] T = "Fq6" -> "Fq2" [] T = "Fq12" -> "Fq6" [] OTHER -> "?"
+\* the pairing's records of Fq2 / Fq coordinates (the `infinity` flag of the affine types is not an Fq cell and not modelled)
+Members(T) == CASE T = "Fq2" -> <<"c0", "c1">> [] T = "Fq6" -> <<"c0", "c1", "c2">> [] T = "Fq12" -> <<"c0", "c1">>
+                [] T = "MillerTriple" -> <<"a", "b", "c">> [] T = "G2" -> <<"x", "y", "z">> [] T \in {"G2Affine", "G1Affine"} -> <<"x", "y">> [] OTHER -> <<>>
+MemberType(T) == CASE T = "Fq2" -> "Fq" [] T = "Fq6" -> "Fq2" [] T = "Fq12" -> "Fq6" [] T \in {"MillerTriple", "G2", "G2Affine"} -> "Fq2" [] T = "G1Affine" -> "Fq" [] OTHER -> "?"
 RECURSIVE Leaves(_)
 Leaves(T) == IF T = "Fq" THEN { <<>> } ELSE UNION { { <<Members(T)[k]>> \o s : s \in Leaves(MemberType(T)) } : k \in 1..Len(Members(T)) }
 RECURSIVE TypeAfter(_, _)
@@ -55,12 +57,14 @@ RECURSIVE FlatObj(_, _, _)
 FlatObj(pfx, T, v) == IF T = "Fq" THEN { <<pfx, v>> } ELSE UNION { FlatObj(pfx \o <<Members(T)[k]>>, MemberType(T), v[k]) : k \in 1..Len(Members(T)) }
 
 \* ---- execution ----------------------------------------------------------------------------------------------------
-\* state: [mem |-> function from paths to values, faults |-> set of strings]
+\* state: [mem |-> function from paths to values, faults |-> set of strings, skipped |-> set of strings]
 Rd(st, p) == IF p \in DOMAIN st.mem THEN st.mem[p] ELSE Undef
 Wr(st, p, v) == [st EXCEPT !.mem = (p :> v) @@ st.mem]
 Arith1(f(_), x) == IF x = Undef THEN Undef ELSE f(x)
 Arith2(f(_, _), x, y) == IF x = Undef \/ y = Undef THEN Undef ELSE f(x, y)
 Fault(st, s) == [st EXCEPT !.faults = @ \cup {s}]
+\* a step the machine cannot express: the case is not judged (reported as not executable), never a finding
+Skip(st, s) == [st EXCEPT !.skipped = @ \cup {s}]
 
 \* an atomic Fq operation (the Fp member functions; their own aliasing behaviour is C02's subject):
 \* Fp::add / subtract declare their second operand __restrict
@@ -73,34 +77,49 @@ FqOp(st, op, d, args, where) ==
        [] op = "multiply" -> Wr(st2, d, Arith2(TM, x, y)) [] op = "square" -> Wr(st2, d, Arith2(TM, x, x))
        [] op = "negate" -> Wr(st2, d, Arith1(TN, x)) [] op = "multiply2" -> Wr(st2, d, Arith2(TA, x, x))
        [] op = "copy" -> Wr(st2, d, x) [] op = "inverse" -> Wr(st2, d, Arith1(TInv, x))
-       [] OTHER -> Fault(st2, "unsupported Fq operation " \o op \o " in " \o where)
+       [] OTHER -> Skip(st2, "unsupported Fq operation " \o op \o " in " \o where)
 
 Overlaps(p, T, q, U) == Cells(p, T) \cap Cells(q, U) # {}
 
-RECURSIVE Exec(_, _, _, _, _, _), RunSteps(_, _, _, _, _, _)
-\* run cls::name with `this` bound to thisPfx and the parameters to argPfxs; depth makes local names unique
-Exec(st, cls, name, thisPfx, argPfxs, depth) ==
+\* integer arguments (Frobenius powers) travel beside the object arguments; table entries are objects preloaded under <<"$tbl", table, index>>
+IntVal(a, ienv) == IF a[2] = "lit" THEN a[3] ELSE ienv[a[3]]
+TblIdx(a, ienv) == CASE a[3] = "lit" -> a[4] [] a[3] = "and1" -> ienv[a[4]] % 2 [] OTHER -> ienv[a[4]]
+IsInt(a) == a[1] = "$int"
+ArgPath(a, env, ienv) == IF a[1] = "$tbl" THEN <<"$tbl", a[2], ToString(TblIdx(a, ienv))>> ELSE IF IsInt(a) THEN <<"$int">> ELSE env[a[1]].pfx \o Tail(a)
+
+RECURSIVE Exec(_, _, _, _, _, _, _), RunSteps(_, _, _, _, _, _, _)
+\* run cls::name with `this` bound to thisPfx, the object parameters to argPfxs and the integer parameters to argInts (both indexed by
+\* parameter position); depth makes local names unique
+Exec(st, cls, name, thisPfx, argPfxs, argInts, depth) ==
   LET pg == Prog(cls, name)
-      env == [n \in {"this"} \cup { pg.params[i].name : i \in 1..Len(pg.params) } \cup { pg.locals[i].name : i \in 1..Len(pg.locals) } |->
+      objPar == { i \in 1..Len(pg.params) : pg.params[i].type # "uint" }
+      env == [n \in {"this"} \cup { pg.params[i].name : i \in objPar } \cup { pg.locals[i].name : i \in 1..Len(pg.locals) } |->
                 IF n = "this" THEN [pfx |-> thisPfx, ty |-> cls]
-                ELSE IF \E i \in 1..Len(pg.params) : pg.params[i].name = n
-                     THEN LET i == CHOOSE j \in 1..Len(pg.params) : pg.params[j].name = n IN [pfx |-> argPfxs[i], ty |-> pg.params[i].type]
+                ELSE IF \E i \in objPar : pg.params[i].name = n
+                     THEN LET i == CHOOSE j \in objPar : pg.params[j].name = n IN [pfx |-> argPfxs[i], ty |-> pg.params[i].type]
                      ELSE LET i == CHOOSE j \in 1..Len(pg.locals) : pg.locals[j].name = n IN [pfx |-> <<"local", ToString(depth), n>>, ty |-> pg.locals[i].type]]
+      ienv == [n \in { pg.params[i].name : i \in (1..Len(pg.params)) \ objPar } |-> argInts[CHOOSE j \in 1..Len(pg.params) : pg.params[j].name = n]]
       \* a callee-side restrict check: a __restrict parameter bound to (part of) the object written
-      st0 == IF \E i \in 1..Len(pg.params) : pg.params[i].restrict = 1 /\ Overlaps(thisPfx, cls, argPfxs[i], pg.params[i].type)
+      st0 == IF cls # "pairing" /\ \E i \in objPar : pg.params[i].restrict = 1 /\ Overlaps(thisPfx, cls, argPfxs[i], pg.params[i].type)
              THEN Fault(st, "restrict-violated calling " \o cls \o "::" \o name) ELSE st
-  IN RunSteps(st0, pg, env, 1, depth, cls \o "::" \o name)
-RunSteps(st, pg, env, k, depth, where) ==
+  IN RunSteps(st0, pg, env, ienv, 1, depth, cls \o "::" \o name)
+RunSteps(st, pg, env, ienv, k, depth, where) ==
   IF k > Len(pg.steps) THEN st
-  ELSE LET s == pg.steps[k]
-           dPfx == env[s.dst[1]].pfx \o Tail(s.dst)
+  ELSE LET s == pg.steps[k] IN
+       IF s.op = "$idx" THEN      \* n = p < K ? p : p % M
+            LET p == IntVal(s.args[1], ienv)  kk == IntVal(s.args[2], ienv)  mm == IntVal(s.args[3], ienv)
+            IN RunSteps(st, pg, env, (s.dst[1] :> (IF p < kk THEN p ELSE p % mm)) @@ ienv, k + 1, depth, where)
+       ELSE
+       LET dPfx == env[s.dst[1]].pfx \o Tail(s.dst)
            dTy == TypeAfter(env[s.dst[1]].ty, Tail(s.dst))
-           aPfx == [i \in 1..Len(s.args) |-> env[s.args[i][1]].pfx \o Tail(s.args[i])]
+           aPfx == [i \in 1..Len(s.args) |-> ArgPath(s.args[i], env, ienv)]
+           aInt == [i \in 1..Len(s.args) |-> IF IsInt(s.args[i]) THEN IntVal(s.args[i], ienv) ELSE 0]
            here == where \o " step " \o ToString(k) \o " (" \o s.op \o ")"
-           st1 == IF dTy = "Fq" THEN FqOp(st, s.op, dPfx, aPfx, here)
-                  ELSE IF HasProg(dTy, s.op) /\ Len(Prog(dTy, s.op).params) = Len(s.args) THEN Exec(st, dTy, s.op, dPfx, aPfx, depth + 1)
-                  ELSE Fault(st, "unsupported callee " \o dTy \o "::" \o s.op \o " in " \o here)
-       IN RunSteps(st1, pg, env, k + 1, depth, where)
+           st1 == IF "targs" \in DOMAIN s THEN Skip(st, "function template " \o s.op \o " is not executable here, in " \o here)
+                  ELSE IF dTy = "Fq" THEN FqOp(st, s.op, dPfx, aPfx, here)
+                  ELSE IF HasProg(dTy, s.op) /\ Len(Prog(dTy, s.op).params) = Len(s.args) THEN Exec(st, dTy, s.op, dPfx, aPfx, aInt, depth + 1)
+                  ELSE Skip(st, "unsupported callee " \o dTy \o "::" \o s.op \o " in " \o here)
+       IN RunSteps(st1, pg, env, ienv, k + 1, depth, where)
 
 \* ---- definitional meaning of the extracted functions (those with one) ----------------------------------------------
 AddT(T, a, b) == CASE T = "Fq2" -> T2Add(a, b) [] T = "Fq6" -> T6Add(a, b) [] OTHER -> T12!EAdd(a, b)
@@ -110,7 +129,27 @@ NegT(T, a) == CASE T = "Fq2" -> T2Neg(a) [] T = "Fq6" -> T6Neg(a) [] OTHER -> T1
 OneT(T) == CASE T = "Fq2" -> T2!EOne [] T = "Fq6" -> T6!EOne [] OTHER -> T12!EOne
 ZeroT(T) == CASE T = "Fq2" -> T2!EZero [] T = "Fq6" -> T6!EZero [] OTHER -> T12!EZero
 Z2 == T2!EZero
-HasMeaning(cls, name) == name \in {"copy", "add", "subtract", "multiply2", "negate", "multiply", "square", "inverse", "multiply_by_nonresidue", "conjugate",
+\* ---- Frobenius, by definition: x |-> x^(QT^k), by k-fold QT-th powering in the quotient ring (no closed form, no table) ------------------
+\* (folds, not recursive operators: TLC passes operator arguments unevaluated and a recursive operator re-evaluates them exponentially
+\*  often; FoldLeft hands its accumulator on as a value)
+RECURSIVE BitsMSBOf(_)
+BitsMSBOf(e) == IF e = 0 THEN <<>> ELSE Append(BitsMSBOf(e \div 2), e % 2)
+PowT(T, a, e) == FoldLeft(LAMBDA acc, bit : IF bit = 1 THEN MulT(T, MulT(T, acc, acc), a) ELSE MulT(T, acc, acc), OneT(T), BitsMSBOf(e))
+FrobDef(T, a, k) == FoldLeft(LAMBDA acc, i : PowT(T, acc, QT), a, [i \in 1..k |-> i])
+\* the coefficient tables, by the identities MC_Consts checks the real tables against (requires QT = 3 mod 4 and QT = 1 mod 6):
+\*   u^(q^k) = (-1)^k u;  v^(q^k) = g3(k) v,  (v^2)^(q^k) = g3(k)^2 v^2,  w^(q^k) = g6(k) w  with  g(k+1) = g(k)^q g(1),  g3(1) = xi^((q-1)/3),  g6(1) = xi^((q-1)/6)
+XiT == <<1, 1>>
+G31 == PowT("Fq2", XiT, (QT - 1) \div 3)
+G61 == PowT("Fq2", XiT, (QT - 1) \div 6)
+G3(k) == FoldLeft(LAMBDA acc, i : T2Mul(PowT("Fq2", acc, QT), G31), T2!EOne, [i \in 1..k |-> i])
+G6(k) == FoldLeft(LAMBDA acc, i : T2Mul(PowT("Fq2", acc, QT), G61), T2!EOne, [i \in 1..k |-> i])
+TableCells == UNION ( { { <<<<"$tbl", "fq2_frobenius_coeff", ToString(k)>>, IF k = 0 THEN 1 ELSE QT - 1>> } : k \in 0..1 }
+                 \cup { FlatObj(<<"$tbl", "fq6_frobenius_coeff_c1", ToString(k)>>, "Fq2", G3(k)) : k \in 0..5 }
+                 \cup { FlatObj(<<"$tbl", "fq6_frobenius_coeff_c2", ToString(k)>>, "Fq2", T2Mul(G3(k), G3(k))) : k \in 0..5 }
+                 \cup { FlatObj(<<"$tbl", "fq12_frobenius_coeff_c1", ToString(k)>>, "Fq2", G6(k)) : k \in 0..11 } )
+ConjT(a) == <<a[1], T6Neg(a[2])>>
+
+HasMeaning(cls, name) == name \in {"frobenius_map", "map_to_cyclotomic", "square_cyclotomic", "copy", "add", "subtract", "multiply2", "negate", "multiply", "square", "inverse", "multiply_by_nonresidue", "conjugate",
                                    "multiply_by_c1", "multiply_by_c01", "multiply_by_c014"}
 \* expected value; for inverse a relation (see Holds)
 Meaning(cls, name, a, b, cs) ==
@@ -124,7 +163,14 @@ Meaning(cls, name, a, b, cs) ==
     [] OTHER -> a
 \* QT is chosen so that the toy tower is a tower of fields (QT = 19: 1 + u is neither a square nor a cube in F_361), hence every
 \* non-zero element is invertible; inversion maps zero to zero, as the library's does
+\* cs[4] carries the Frobenius power of the case
 Holds(cls, name, a, b, cs, r) ==
-  IF name = "inverse" THEN (IF a = ZeroT(cls) THEN r = ZeroT(cls) ELSE MulT(cls, a, r) = OneT(cls))
-  ELSE r = Meaning(cls, name, a, b, cs)
+  CASE name = "inverse" -> (IF a = ZeroT(cls) THEN r = ZeroT(cls) ELSE MulT(cls, a, r) = OneT(cls))
+    [] name = "frobenius_map" -> r = FrobDef(cls, a, cs[4] % 12)          \* x^(q^12) = x in the toy tower (a field for QT = 19)
+    \* r = a^((q^6 - 1)(q^2 + 1)), stated without the inverse:  r a a^(q^2) = conj(a) conj(a)^(q^2)   (0 |-> 0)
+    [] name = "map_to_cyclotomic" -> IF a = ZeroT(cls) THEN r = ZeroT(cls)
+                                     ELSE T12!EMul(r, T12!EMul(a, FrobDef(cls, a, 2))) = T12!EMul(ConjT(a), FrobDef(cls, ConjT(a), 2))
+    \* the compressed squaring is only claimed on the cyclotomic subgroup: the case's operand is mapped into it first
+    [] name = "square_cyclotomic" -> r = T12!EMul(a, a)
+    [] OTHER -> r = Meaning(cls, name, a, b, cs)
 =============================================================================
